@@ -7,11 +7,12 @@
 
     first_row            log row 0 = (0, probe)
     call_args            k-th deplete call gets (Δt_k, I_k): I_k = solveI of the previous callback's (volt, rs) in
-                         phase k mod n (declared order), Δt_k = that phase's duration, resp. (cap₀ / I_k)·3.6
+                         phase k mod n (declared order), converged (iters ≤ 10000), Δt_k = that phase's duration,
+                         resp. (cap₀ / I_k)·3.6
     log_rows             log = probe row ++ the deplete results up to, excluding, the first with cap ≤ 0 ∨ volt ≤ cutoff
     time_strict          all Δt > 0 → strictly increasing time column (+ the two sufficient conditions)
-    not_a_source_partial a name that is neither a Source nor a Source's rail → ValueError   (partial: name ≠ "")
-    not_a_source_full_fails   `batt_life("")` is accepted when the first rail-less component is a Source
+    not_a_source         a name that is neither a Source nor a Source's (non-empty) rail → ValueError, nothing called
+    unconverged_raises   a solve that did not converge ends the run with RuntimeError before the callback is called
     time_steps           t_{j+1} = t_j + Δt_j
   Clause 3 of C17 (the Source gets `vo, rs` back) is about the same loop: Props/C17Batt.lean.
 -/
@@ -33,16 +34,13 @@ def Accepts (inp : Input α) : Prop :=
 
 /-! ### shape of a run -/
 
-theorem finish_calls (vo rs : α) (row0 : Row α) (r : Tail α) : (battLife.finish vo rs row0 r).calls = r.calls := by
-  unfold battLife.finish; cases r.outcome <;> rfl
-theorem finish_log (vo rs : α) (row0 : Row α) (r : Tail α) : (battLife.finish vo rs row0 r).log = row0 :: r.rows := by
-  unfold battLife.finish; cases r.outcome <;> rfl
-theorem finish_outcome (vo rs : α) (row0 : Row α) (r : Tail α) : (battLife.finish vo rs row0 r).outcome = r.outcome := by
-  unfold battLife.finish; cases r.outcome <;> rfl
+theorem finish_calls (vo rs : α) (row0 : Row α) (r : Tail α) : (battLife.finish vo rs row0 r).calls = r.calls := rfl
+theorem finish_log (vo rs : α) (row0 : Row α) (r : Tail α) : (battLife.finish vo rs row0 r).log = row0 :: r.rows := rfl
+theorem finish_outcome (vo rs : α) (row0 : Row α) (r : Tail α) : (battLife.finish vo rs row0 r).outcome = r.outcome := rfl
 
 /-- either nothing happened (validation or the probe raised: no rows, no calls, source untouched), or the probe
     answered `p` and the run is the loop started from `p`, followed by the epilogue -/
-theorem run_shape (inp : Input α) (solveI : α → α → String → Except Err α) :
+theorem run_shape (inp : Input α) (solveI : α → α → String → Except Err (α × Nat)) :
     (¬ (Accepts inp ∧ ∃ p, inp.probe = .ret p) ∧
       ∃ e, battLife inp solveI = ⟨[], [], inp.vo, inp.rs, .raised e⟩) ∨
     (Accepts inp ∧ ∃ p, inp.probe = .ret p ∧
@@ -74,7 +72,7 @@ theorem run_shape (inp : Input α) (solveI : α → α → String → Except Err
 
 /-! ### 1. the first row -/
 
-theorem first_row (inp : Input α) (solveI : α → α → String → Except Err α) (hacc : Accepts inp)
+theorem first_row (inp : Input α) (solveI : α → α → String → Except Err (α × Nat)) (hacc : Accepts inp)
     (p : BState α) (hp : inp.probe = .ret p) :
     (battLife inp solveI).log.head? = some ⟨0, p.cap, p.volt, p.rs⟩ := by
   rcases run_shape inp solveI with ⟨hn, _⟩ | ⟨_, q, hq, h⟩
@@ -116,27 +114,27 @@ theorem deltaT_eq_stepTime (phases : List (String × α)) (h : PhasesOk phases) 
 
 /-- **call_args.**  If the `k`-th deplete call (from 0) happened and received `(Δt, I)`, then the probe answered some
     `p`, the `(k-1)`-th deplete call (the probe for `k = 0`) returned some state `bₖ`, `I` is what the solver gives
-    for the Source set to `(bₖ.volt, bₖ.rs)` in phase `k mod n` of the declared order, and `Δt` is that phase's
-    duration — without phases `(p.cap / I) · 3.6`. -/
-theorem call_args (inp : Input α) (solveI : α → α → String → Except Err α) (hph : PhasesOk inp.phases)
+    for the Source set to `(bₖ.volt, bₖ.rs)` in phase `k mod n` of the declared order — and the solver converged
+    (`iters ≤ 10000`) — and `Δt` is that phase's duration — without phases `(p.cap / I) · 3.6`. -/
+theorem call_args (inp : Input α) (solveI : α → α → String → Except Err (α × Nat)) (hph : PhasesOk inp.phases)
     (k : Nat) (dt i : α) (h : (battLife inp solveI).calls[k]? = some (dt, i)) :
-    ∃ p bk, inp.probe = .ret p ∧ stateBefore p inp.deplete k = some bk ∧
-      solveI bk.volt bk.rs (phaseAt inp.phases k) = .ok i ∧
+    ∃ p bk it, inp.probe = .ret p ∧ stateBefore p inp.deplete k = some bk ∧
+      solveI bk.volt bk.rs (phaseAt inp.phases k) = .ok (i, it) ∧ it ≤ 10000 ∧
       dt = stepTime inp.phases p.cap i k := by
   rcases run_shape inp solveI with ⟨_, e, he⟩ | ⟨_, p, hp, hrun⟩
   · rw [he] at h; simp at h
   · rw [hrun, finish_calls] at h
-    obtain ⟨bk, hb, hs, hd⟩ := loop_calls _ _ _ _ _ _ _ _ _ _ _ _ _ h
+    obtain ⟨bk, it, hb, hs, hle, hd⟩ := loop_calls _ _ _ _ _ _ _ _ _ _ _ _ _ h
     rw [phase_of_index _ hph] at hs hd
     rw [deltaT_eq_stepTime _ hph] at hd
-    exact ⟨p, bk, hp, hb, hs, hd⟩
+    exact ⟨p, bk, it, hp, hb, hs, hle, hd⟩
 
 /-- the callbacks are called strictly in sequence: a `k`-th deplete call implies all earlier ones returned -/
-theorem call_args_prefix (inp : Input α) (solveI : α → α → String → Except Err α) (hph : PhasesOk inp.phases)
+theorem call_args_prefix (inp : Input α) (solveI : α → α → String → Except Err (α × Nat)) (hph : PhasesOk inp.phases)
     (k : Nat) (hk : k < (battLife inp solveI).calls.length) :
     ∃ p bk, inp.probe = .ret p ∧ stateBefore p inp.deplete k = some bk ∧ Live inp.cutoff p := by
   obtain ⟨c, hc⟩ : ∃ c, (battLife inp solveI).calls[k]? = some c := ⟨_, List.getElem?_eq_getElem hk⟩
-  obtain ⟨p, bk, hp, hb, _, _⟩ := call_args inp solveI hph k c.1 c.2 hc
+  obtain ⟨p, bk, _, hp, hb, _, _, _⟩ := call_args inp solveI hph k c.1 c.2 hc
   refine ⟨p, bk, hp, hb, ?_⟩
   rcases run_shape inp solveI with ⟨_, e, he⟩ | ⟨_, q, hq, hrun⟩
   · rw [he] at hk; simp at hk
@@ -151,7 +149,7 @@ theorem call_args_prefix (inp : Input α) (solveI : α → α → String → Exc
     by exactly the states the deplete calls returned while `cap > 0 ∧ volt > cutoff` (none if `p` itself fails it);
     every later row satisfies the condition; and the loop was ended by a returned state that violates it — the
     first such. -/
-theorem log_rows (inp : Input α) (solveI : α → α → String → Except Err α)
+theorem log_rows (inp : Input α) (solveI : α → α → String → Except Err (α × Nat))
     (hok : (battLife inp solveI).outcome = .ok) :
     ∃ p, inp.probe = .ret p ∧
       (battLife inp solveI).log.map Row.state =
@@ -183,7 +181,7 @@ theorem log_rows (inp : Input α) (solveI : α → α → String → Except Err 
 /-! ### 4. the time column -/
 
 /-- **time_strict.**  All handed-out durations positive → the time column is strictly increasing. -/
-theorem time_strict (inp : Input α) (solveI : α → α → String → Except Err α)
+theorem time_strict (inp : Input α) (solveI : α → α → String → Except Err (α × Nat))
     (hdt : ∀ c ∈ (battLife inp solveI).calls, 0 < c.1) :
     ((battLife inp solveI).log.map Row.t).Pairwise (· < ·) := by
   rcases run_shape inp solveI with ⟨_, e, he⟩ | ⟨_, p, hp, hrun⟩
@@ -197,7 +195,7 @@ theorem time_strict (inp : Input α) (solveI : α → α → String → Except E
     exact h1 r hr
 
 /-- **time_steps.**  Row `j+1` of the log carries the time of row `j` plus the duration handed to the `j`-th deplete call. -/
-theorem time_steps (inp : Input α) (solveI : α → α → String → Except Err α) :
+theorem time_steps (inp : Input α) (solveI : α → α → String → Except Err (α × Nat)) :
     TimeChain 0 ((battLife inp solveI).log.tail.map Row.t) ((battLife inp solveI).calls.map (·.1)) := by
   rcases run_shape inp solveI with ⟨_, e, he⟩ | ⟨_, p, hp, hrun⟩
   · rw [he]; simp [TimeChain]
@@ -205,13 +203,13 @@ theorem time_steps (inp : Input α) (solveI : α → α → String → Except Er
     exact loop_timechain _ _ _ _ _ _ _ _ _ _
 
 /-- with phases: positive phase durations suffice -/
-theorem time_strict_phases (inp : Input α) (solveI : α → α → String → Except Err α)
+theorem time_strict_phases (inp : Input α) (solveI : α → α → String → Except Err (α × Nat))
     (h2 : 2 ≤ inp.phases.length) (hnd : (inp.phases.map (·.1)).Nodup) (hpos : ∀ q ∈ inp.phases, 0 < q.2) :
     ((battLife inp solveI).log.map Row.t).Pairwise (· < ·) := by
   apply time_strict
   intro c hc
   obtain ⟨k, hk, rfl⟩ := List.getElem_of_mem hc
-  obtain ⟨p, bk, _, _, _, hd⟩ := call_args inp solveI (Or.inr ⟨h2, hnd⟩) k _ _ (List.getElem?_eq_getElem hk)
+  obtain ⟨p, bk, _, _, _, _, _, hd⟩ := call_args inp solveI (Or.inr ⟨h2, hnd⟩) k _ _ (List.getElem?_eq_getElem hk)
   simp only [List.get_eq_getElem] at hd
   rw [hd]
   unfold stepTime
@@ -221,30 +219,29 @@ theorem time_strict_phases (inp : Input α) (solveI : α → α → String → E
 
 /-- without phases: a solver that only yields positive currents suffices (the probed capacity is positive whenever
     a step is taken at all) -/
-theorem time_strict_nophases (inp : Input α) (solveI : α → α → String → Except Err α)
-    (hno : inp.phases = []) (hpos : ∀ vo rs ph i, solveI vo rs ph = .ok i → 0 < i) :
+theorem time_strict_nophases (inp : Input α) (solveI : α → α → String → Except Err (α × Nat))
+    (hno : inp.phases = []) (hpos : ∀ vo rs ph i it, solveI vo rs ph = .ok (i, it) → 0 < i) :
     ((battLife inp solveI).log.map Row.t).Pairwise (· < ·) := by
   apply time_strict
   intro c hc
   obtain ⟨k, hk, rfl⟩ := List.getElem_of_mem hc
-  obtain ⟨p, bk, hp, _, hs, hd⟩ := call_args inp solveI (Or.inl hno) k _ _ (List.getElem?_eq_getElem hk)
+  obtain ⟨p, bk, it, hp, _, hs, _, hd⟩ := call_args inp solveI (Or.inl hno) k _ _ (List.getElem?_eq_getElem hk)
   obtain ⟨p', _, hp', _, hl⟩ := call_args_prefix inp solveI (Or.inl hno) k hk
   rw [hp] at hp'; cases hp'
   simp only [List.get_eq_getElem] at hd hs
   rw [hd]
   unfold stepTime
   simp only [hno, List.length_nil, Nat.mod_zero, List.getElem?_nil]
-  have hi := hpos _ _ _ _ hs
+  have hi := hpos _ _ _ _ _ hs
   have hc0 : 0 < p.cap := hl.1
   positivity
 
 /-! ### 5. a battery that is not a Source -/
 
-/-- **not_a_source (partial).**  A non-empty name that is neither the name nor the rail name of a Source is rejected with
-    `ValueError` before any callback is called, and nothing is touched.  (The hypothesis `battery ≠ ""` is the excluded
-    case, see `not_a_source_full_fails`.) -/
-theorem not_a_source_partial (inp : Input α) (solveI : α → α → String → Except Err α)
-    (hwf : inp.reg.RailsKnown) (hne : inp.battery ≠ "") (hns : ¬ NamesSource inp.reg inp.battery) :
+/-- **not_a_source.**  A name that is neither the name of a Source nor the (non-empty) rail name of one is rejected with
+    `ValueError` before any callback is called, and nothing is touched. -/
+theorem not_a_source (inp : Input α) (solveI : α → α → String → Except Err (α × Nat))
+    (hwf : inp.reg.RailsKnown) (hns : ¬ NamesSource inp.reg inp.battery) :
     ∃ m, battLife inp solveI = ⟨[], [], inp.vo, inp.rs, .raised (.value m)⟩ := by
   unfold battLife
   by_cases hc : inp.reg.chkParent inp.battery = true
@@ -259,41 +256,42 @@ theorem not_a_source_partial (inp : Input α) (solveI : α → α → String →
       simp [this]
     | none =>
       simp only
-      cases hf : inp.reg.rails.find? (fun p => p.2 == inp.battery) with
-      | none =>
-        exfalso
-        unfold Reg.chkParent at hc
-        simp only [Bool.or_eq_true, List.contains_eq_mem, List.mem_map, decide_eq_true_eq] at hc
-        rcases hc with ⟨q, hq, hq'⟩ | ⟨q, hq, hq'⟩
-        · have := List.lookup_eq_none_iff.mp hl q hq
+      have hnode : ¬ ∃ q ∈ inp.reg.nodes, q.1 = inp.battery := by
+        rintro ⟨q, hq, hq'⟩
+        have := List.lookup_eq_none_iff.mp hl q hq
+        simp [hq'] at this
+      unfold Reg.chkParent at hc
+      simp only [Bool.or_eq_true, List.contains_eq_mem, List.mem_map, decide_eq_true_eq, Bool.and_eq_true,
+        bne_iff_ne, ne_eq] at hc
+      rcases hc with hc | ⟨hne, q, hq, hq'⟩
+      · exact absurd hc hnode
+      · have hne' : (inp.battery != "") = true := by simpa using hne
+        simp only [hne', if_true]
+        cases hf : inp.reg.rails.find? (fun p => p.2 == inp.battery) with
+        | none =>
+          exfalso
+          have := List.find?_eq_none.mp hf q hq
           simp [hq'] at this
-        · have := List.find?_eq_none.mp hf q hq
-          simp [hq'] at this
-      | some cr =>
-        obtain ⟨c, r⟩ := cr
-        have hmem := List.mem_of_find?_eq_some hf
-        have hr : r = inp.battery := by simpa using List.find?_some hf
-        subst hr
-        have hknown := hwf _ hmem
-        simp only at hknown ⊢
-        cases hl2 : inp.reg.nodes.lookup c with
-        | none => simp [hl2] at hknown
-        | some k =>
-          have hk : k ≠ Kind.source := by
-            rintro rfl
-            exact hns ⟨c, mem_of_lookup hl2, Or.inr ⟨hne, hmem⟩⟩
-          have : (k != Kind.source) = true := by simpa using hk
-          simp [this]
+        | some cr =>
+          obtain ⟨c, r⟩ := cr
+          have hmem := List.mem_of_find?_eq_some hf
+          have hr : r = inp.battery := by simpa using List.find?_some hf
+          subst hr
+          have hknown := hwf _ hmem
+          simp only at hknown ⊢
+          cases hl2 : inp.reg.nodes.lookup c with
+          | none => simp [hl2] at hknown
+          | some k =>
+            have hk : k ≠ Kind.source := by
+              rintro rfl
+              exact hns ⟨c, mem_of_lookup hl2, Or.inr ⟨hne, hmem⟩⟩
+            have : (k != Kind.source) = true := by simpa using hk
+            simp [this]
   · have : inp.reg.chkParent inp.battery = false := by simpa using hc
     simp [this]
 
-/-- the property's clause as stated: *any* name that does not name a Source is rejected with ValueError -/
-def not_a_source_full : Prop :=
-  ∀ (inp : Input ℚ) (solveI : ℚ → ℚ → String → Except Err ℚ), inp.reg.RailsKnown → ¬ NamesSource inp.reg inp.battery →
-    ∃ m, (battLife inp solveI).outcome = .raised (.value m)
-
-/-- witness: Source `B` (no rail) feeding load `L`; `batt_life("")` passes `_chk_parent` because `""` is a value of the
-    rails dict, `_get_index("")` finds the first rail-less component — the Source — and the run proceeds. -/
+/-- regression witness of the repaired finding F29: Source `B` (no rail) feeding load `L`, `batt_life("")`.
+    (`""` is a value of the rails dict; before /repo c45789c the run proceeded on `B`.) -/
 def emptyNameInput : Input ℚ where
   reg := ⟨[("B", .source), ("L", .iload)], [("B", ""), ("L", "")]⟩
   battery := ""
@@ -304,23 +302,23 @@ def emptyNameInput : Input ℚ where
   probe := .ret ⟨1, 4, 1 / 5⟩
   deplete := [.ret ⟨0, 4, 1 / 5⟩]
 
-theorem not_a_source_full_fails : ¬ not_a_source_full := by
-  intro h
-  have hwf : emptyNameInput.reg.RailsKnown := by
-    intro p hp
-    simp only [emptyNameInput, List.mem_cons, List.not_mem_nil, or_false] at hp
-    rcases hp with rfl | rfl <;> rfl
-  have hns : ¬ NamesSource emptyNameInput.reg emptyNameInput.battery := by
-    rintro ⟨c, hc, h1 | ⟨h1, _⟩⟩
-    · simp only [emptyNameInput, List.mem_cons, Prod.mk.injEq, List.not_mem_nil, or_false] at hc h1
-      rcases hc with ⟨rfl, _⟩ | ⟨_, hk⟩
-      · exact absurd h1 (by decide)
-      · exact absurd hk (by decide)
-    · exact h1 rfl
-  obtain ⟨m, hm⟩ := h emptyNameInput (fun _ _ _ => .ok 1) hwf hns
-  have hok : (battLife emptyNameInput (fun _ _ _ => .ok 1)).outcome = .ok := by decide +kernel
-  rw [hok] at hm
-  cases hm
+example : (battLife emptyNameInput (fun _ _ _ => .ok (1, 3))).outcome = .raised (.value "Parent name \"\" not found!") ∧
+    (battLife emptyNameInput (fun _ _ _ => .ok (1, 3))).calls = [] := by decide +kernel
+
+/-! ### 6. a solve that did not converge -/
+
+/-- **unconverged_raises.**  If the probe answers a live state and the first solve comes back with `iters > 10000`,
+    `batt_life` raises `RuntimeError`; the deplete callback is never handed that current.  (For later steps the same is
+    contained in `call_args`: every handed-out current has `iters ≤ 10000`.) -/
+theorem unconverged_raises (inp : Input α) (solveI : α → α → String → Except Err (α × Nat)) (hacc : Accepts inp)
+    (p : BState α) (hp : inp.probe = .ret p) (hl : Live inp.cutoff p) (i : α) (it : Nat)
+    (hs : solveI p.volt p.rs ((phaseList inp.phases).getD 0 "") = .ok (i, it)) (hit : it > 10000) :
+    ∃ m, (battLife inp solveI).outcome = .raised (.runtime m) ∧ (battLife inp solveI).calls = [] := by
+  rcases run_shape inp solveI with ⟨hn, _⟩ | ⟨_, q, hq, hrun⟩
+  · exact absurd ⟨hacc, p, hp⟩ hn
+  · rw [hp] at hq; cases hq
+    rw [hrun, finish_outcome, finish_calls, loop_nonconv _ _ _ _ _ _ _ _ _ _ ((live_iff _ _).mpr hl) i it hs hit]
+    exact ⟨_, rfl, rfl⟩
 
 /-! ### non-vacuity: a concrete run (2 phases, ends by capacity) satisfying every hypothesis used above -/
 
@@ -335,7 +333,8 @@ def demoInput : Input ℚ where
   deplete := [.ret ⟨9 / 10, 39 / 10, 21 / 100⟩, .ret ⟨8 / 10, 38 / 10, 22 / 100⟩, .ret ⟨0, 37 / 10, 23 / 100⟩,
               .raise (.key "never called")]
 
-def demoSolve : ℚ → ℚ → String → Except Err ℚ := fun vo _ ph => .ok (if ph = "tx" then vo / 4 else vo / 40)
+def demoSolve : ℚ → ℚ → String → Except Err (ℚ × Nat) :=
+  fun vo _ ph => .ok (if ph = "tx" then vo / 4 else vo / 40, 17)
 
 example : Accepts demoInput := ⟨by decide +kernel, "B", by decide +kernel⟩
 example : PhasesOk demoInput.phases := Or.inr ⟨by decide, by decide⟩
@@ -352,14 +351,14 @@ example : ((battLife demoInput demoSolve).log.map Row.t).Pairwise (· < ·) :=
     rcases hq with rfl | rfl <;> norm_num)
 example : TimeChain 0 [2, 5] [2, 3, 2] := ⟨by norm_num, by norm_num, trivial⟩
 /-- without phases: Δt = (cap₀ / I)·3.6 -/
-example : (battLife { demoInput with phases := [] } (fun _ _ _ => .ok (1 / 2))).calls =
+example : (battLife { demoInput with phases := [] } (fun _ _ _ => .ok (1 / 2, 9))).calls =
     [(36 / 5, 1 / 2), (36 / 5, 1 / 2), (36 / 5, 1 / 2)] := by decide +kernel
 /-- a load is not a battery -/
 example : ∃ m, battLife { demoInput with battery := "L" } demoSolve = ⟨[], [], 5, 1 / 10, .raised (.value m)⟩ :=
-  not_a_source_partial _ _ (by
+  not_a_source _ _ (by
       intro p hp
       simp only [demoInput, List.mem_cons, List.not_mem_nil, or_false] at hp
-      rcases hp with rfl | rfl <;> rfl) (by decide) (by
+      rcases hp with rfl | rfl <;> rfl) (by
     rintro ⟨c, hc, h1 | ⟨_, h1⟩⟩
     · simp only [demoInput, List.mem_cons, Prod.mk.injEq, List.not_mem_nil, or_false] at hc h1
       rcases hc with ⟨rfl, _⟩ | ⟨_, hk⟩
@@ -367,6 +366,12 @@ example : ∃ m, battLife { demoInput with battery := "L" } demoSolve = ⟨[], [
       · exact absurd hk (by decide)
     · simp only [demoInput, List.mem_cons, Prod.mk.injEq, List.not_mem_nil, or_false] at hc h1
       rcases h1 with ⟨_, h⟩ | ⟨_, h⟩ <;> exact absurd h (by decide))
+
+/-- a solver that does not converge in phase `tx`: RuntimeError at the second step, one deplete call made -/
+example : (battLife demoInput (fun vo _ ph => .ok (vo / 4, if ph = "tx" then 10001 else 17))).outcome =
+    .raised (.runtime "Steady-state not achieved") ∧
+    (battLife demoInput (fun vo _ ph => .ok (vo / 4, if ph = "tx" then 10001 else 17))).calls.length = 1 := by
+  decide +kernel
 
 end C18
 end SysLoss
